@@ -17,6 +17,7 @@ import (
 	"go/types"
 	"os"
 	"sort"
+	"strconv"
 	"strings"
 
 	"golang.org/x/tools/go/cfg"
@@ -65,6 +66,7 @@ type dtEval struct {
 	freshMemo map[[2]token.Pos]bool
 	constMemo map[types.Object]ast.Expr
 	defMemo   map[types.Object]ast.Expr
+	litDom    []int64
 }
 
 func newDtEval(e *Env) *dtEval {
@@ -953,6 +955,44 @@ func (ev *dtEval) evalGuards(gs []dtGuard, fr0 *dtFrame, env *dtEnv) (bool, erro
 
 // enumerate calls f for every assignment of the collected atoms; integer terms range over enum constants of
 // their type when the type is a named integer type with constants in pkg, else over {0,1,2,3}.
+// literalNeighbours: for up to three integer literals outside -1..3 that occur in the function the row is about, the
+// literal and its two neighbours.
+func (ev *dtEval) literalNeighbours() []int64 {
+	if ev.root == nil {
+		return nil
+	}
+	if ev.litDom != nil {
+		return ev.litDom
+	}
+	seen := map[int64]bool{}
+	var lits []int64
+	ast.Inspect(ev.root, func(m ast.Node) bool {
+		if bl, ok := m.(*ast.BasicLit); ok && bl.Kind == token.INT {
+			if v, err := strconv.ParseInt(bl.Value, 0, 64); err == nil && (v < -1 || v > 3) && v < 1<<30 && !seen[v] {
+				seen[v] = true
+				lits = append(lits, v)
+			}
+		}
+		return true
+	})
+	sort.Slice(lits, func(i, j int) bool { return lits[i] < lits[j] })
+	if len(lits) > 3 {
+		lits = lits[:3]
+	}
+	out := []int64{}
+	have := map[int64]bool{-1: true, 0: true, 1: true, 2: true, 3: true}
+	for _, v := range lits {
+		for _, w := range []int64{v - 1, v, v + 1} {
+			if !have[w] {
+				have[w] = true
+				out = append(out, w)
+			}
+		}
+	}
+	ev.litDom = out
+	return out
+}
+
 func (ev *dtEval) enumerate(pkg *types.Package, f func(env *dtEnv) bool) {
 	var inames, bnames []string
 	for k := range ev.intTerms {
@@ -979,6 +1019,9 @@ func (ev *dtEval) enumerate(pkg *types.Package, f func(env *dtEnv) bool) {
 		}
 		if len(dom) == 0 {
 			dom = []int64{-1, 0, 1, 2, 3}
+			// integer literals the function compares with lie inside the domain too (with their neighbours): `n < 8` is
+			// not the same condition as `true`
+			dom = append(dom, ev.literalNeighbours()...)
 		}
 		domains[i] = dom
 	}
